@@ -1147,6 +1147,26 @@ done:
 }
 
 /* ----------------------------------------------------------------
+** Read the class of a Vgroup into a buffer of H4_MAX_NC_CLASS bytes.
+** The classes this interface looks for are short; the class of a Vgroup
+** is not limited in length, so one that does not fit is reported as the
+** empty class (it cannot be one of ours) instead of being copied.
+*/
+static int
+hdf_get_vgclass(int32 vkey, char *vgclass)
+{
+    uint16 len = 0;
+
+    if (Vgetclassnamelen(vkey, &len) == FAIL)
+        return FAIL;
+    if (len >= H4_MAX_NC_CLASS) {
+        vgclass[0] = '\0';
+        return SUCCEED;
+    }
+    return Vgetclass(vkey, vgclass);
+}
+
+/* ----------------------------------------------------------------
 ** Read in the dimensions out of a cdf structure
 ** Return FAIL if something goes wrong
 */
@@ -1189,7 +1209,7 @@ hdf_read_dims(XDR *xdrs, NC *handle, int32 vg)
             if (dim == FAIL)
                 continue; /* why do we continue? does this failure here
                                 not matter? -GV */
-            if (Vgetclass(dim, vgclass) == FAIL)
+            if (hdf_get_vgclass(dim, vgclass) == FAIL)
                 HGOTO_FAIL(FAIL);
 
             if (!strcmp(vgclass, _HDF_DIMENSION) || !strcmp(vgclass, _HDF_UDIMENSION)) {
@@ -1571,7 +1591,7 @@ hdf_read_vars(XDR *xdrs, NC *handle, int32 vg)
             if (var == FAIL)
                 continue; /* isn't this bad? -GV */
 
-            if (Vgetclass(var, class) == FAIL) {
+            if (hdf_get_vgclass(var, class) == FAIL) {
                 HGOTO_FAIL(FAIL);
             }
 
@@ -1611,7 +1631,7 @@ hdf_read_vars(XDR *xdrs, NC *handle, int32 vg)
                                 HGOTO_FAIL(FAIL);
                             }
 
-                            if (FAIL == Vgetclass(sub, dimclass)) {
+                            if (FAIL == hdf_get_vgclass(sub, dimclass)) {
                                 HGOTO_FAIL(FAIL);
                             }
 
@@ -2144,7 +2164,7 @@ hdf_close(NC *handle)
                     HGOTO_FAIL(FAIL);
                 }
 
-                if (FAIL == Vgetclass(dim, class)) {
+                if (FAIL == hdf_get_vgclass(dim, class)) {
                     HGOTO_FAIL(FAIL);
                 }
 
